@@ -196,6 +196,151 @@ def _class_mutators(repo, ci, memo):
     return mut
 
 
+# id(node of a mutation) -> how many container levels below the attribute
+# the modified object lies (1 = the attribute's own object)
+DEPTH = {}
+
+
+def _scalar_elem(repo, ci, attr, subs):
+    """Every definition of self.attr[<subs>] in the class hierarchy (keyed
+    store or entry of a dict display bound to the attribute) is a numeric
+    scalar: `self.attr[k] += x` then re-binds the slot, it does not modify an
+    object shared through a shallow copy."""
+    if len(subs) != 1:
+        return False
+    key = subs[0]
+    defs = []
+    for c in repo.mro(ci):
+        for m in c.methods.values():
+            for t, st in U.stores(m.node):
+                if not isinstance(st, ast.Assign):
+                    continue
+                ap = access_path(t)
+                if ap is None or ap[0] != 'self' or len(ap) < 2 or \
+                        ap[1] != attr:
+                    continue
+                anykey = not (key.startswith("'") or key.startswith('"'))
+                if len(ap) == 3 and (ap[2] == key or anykey):
+                    defs.append(st.value)
+                elif len(ap) == 2 and isinstance(st.value, ast.Dict):
+                    for k_, v_ in zip(st.value.keys, st.value.values):
+                        if k_ is None:
+                            return False
+                        if anykey or "'%s'" % const(k_) == key.strip('[]'):
+                            defs.append(v_)
+                elif len(ap) == 2 and not isinstance(st.value, ast.Dict) \
+                        and anykey:
+                    return False       # bound to something we cannot see into
+    if not defs:
+        return False
+    for d in defs:
+        c = const(d, '__no__')
+        if isinstance(c, (int, float)) and not isinstance(c, bool):
+            continue
+        return False
+    return True
+
+
+def _array_elems(repo, ci, attr):
+    """Every keyed definition self.attr[k] = v in the class hierarchy binds
+    a NumPy array or a number (then `v.copy()` of an element is a complete
+    copy)."""
+    n = 0
+    for c in repo.mro(ci):
+        for m in c.methods.values():
+            for t, st in U.stores(m.node):
+                if not isinstance(st, ast.Assign):
+                    continue
+                ap = access_path(t)
+                if ap is None or ap[0] != 'self' or len(ap) != 3 or \
+                        ap[1] != attr:
+                    continue
+                v = st.value
+                c_ = const(v, '__no__')
+                if isinstance(c_, (int, float)):
+                    n += 1
+                    continue
+                if isinstance(v, ast.Call) and (call_name(v) or '').startswith(
+                        ('np.', 'numpy.')):
+                    n += 1
+                    continue
+                if isinstance(v, ast.BinOp) and any(
+                        isinstance(x, ast.Call) and (call_name(x) or ''
+                                                     ).startswith('np.')
+                        for x in ast.walk(v)):
+                    n += 1
+                    continue
+                return False
+    return n > 0
+
+
+def _fresh_depth(v, array_elems=False):
+    """Number of container levels of the value that are new objects (99 =
+    all of them).  0 = the original's own object."""
+    if not _is_fresh(v):
+        return 0
+
+    def elem(e, loopvars):
+        # depth of an element expression inside a display / comprehension
+        if isinstance(e, ast.Name):
+            return 0 if e.id in loopvars else 99
+        if isinstance(e, (ast.Attribute, ast.Subscript)):
+            r = e
+            while isinstance(r, (ast.Attribute, ast.Subscript)):
+                r = r.value
+            if isinstance(r, ast.Name) and (r.id == 'self'
+                                            or r.id in loopvars):
+                return 0
+            return 99
+        if isinstance(e, ast.Call):
+            nm = call_name(e) or ''
+            if nm in ('copy.deepcopy', 'deepcopy'):
+                return 99
+            if isinstance(e.func, ast.Attribute) and e.func.attr == 'copy' \
+                    and not e.args and array_elems:
+                return 99      # ndarray.copy(): a complete copy
+            if nm in ('copy.copy', 'dict', 'list') or (
+                    isinstance(e.func, ast.Attribute)
+                    and e.func.attr == 'copy' and not e.args):
+                return 1
+            return 99
+        if isinstance(e, (ast.Dict, ast.List, ast.Tuple, ast.DictComp,
+                          ast.ListComp)):
+            return depth(e, loopvars)
+        return 99
+
+    def depth(x, loopvars=frozenset()):
+        if isinstance(x, ast.Call):
+            nm = call_name(x) or ''
+            if nm in ('copy.deepcopy', 'deepcopy'):
+                return 99
+            if nm in ('dict', 'list', 'copy.copy') and x.args:
+                return 1
+            if isinstance(x.func, ast.Attribute) and x.func.attr == 'copy' \
+                    and not x.args and src(x.func.value).startswith('self.'):
+                return 1
+            return 99
+        if isinstance(x, (ast.DictComp, ast.ListComp)):
+            lv = set(loopvars)
+            own = False
+            for g in x.generators:
+                if any(isinstance(n, ast.Name) and n.id == 'self'
+                       for n in ast.walk(g.iter)):
+                    own = True
+                    lv |= {n.id for n in ast.walk(g.target)
+                           if isinstance(n, ast.Name)}
+            if not own:
+                return 99
+            val = x.value if isinstance(x, ast.DictComp) else x.elt
+            return min(99, 1 + elem(val, lv))
+        if isinstance(x, ast.Dict):
+            return min([99] + [1 + elem(v_, loopvars) for v_ in x.values])
+        if isinstance(x, (ast.List, ast.Tuple)):
+            return min([99] + [1 + elem(v_, loopvars) for v_ in x.elts])
+        return 99
+    return depth(v)
+
+
 def _mutations(repo, ci, methods, memo):
     """{attr: [(method, node, how)]} mutated by the given methods of ci."""
     out = {}
@@ -209,9 +354,16 @@ def _mutations(repo, ci, methods, memo):
                 continue
             if len(ap) > 2:                      # self.a[...] = / op=
                 add(a, m, st, 'stores into its content')
+                d = len(ap) - 2
+                if isinstance(st, ast.AugAssign) and not getattr(
+                        st, '_was_assign', False) and not _scalar_elem(
+                            repo, ci, a, ap[2:]):
+                    d += 1       # in-place update of the element itself
+                DEPTH[id(st)] = d
             elif isinstance(st, ast.AugAssign):  # self.a op= v
                 if not _scalar_attr(repo, ci, a):
                     add(a, m, st, 'in-place update')
+                    DEPTH[id(st)] = 1
         for n in walk_no_nested(m.node):
             if not (isinstance(n, ast.Call) and isinstance(n.func,
                                                            ast.Attribute)):
@@ -223,6 +375,7 @@ def _mutations(repo, ci, methods, memo):
             if len(ap) >= 2 and meth in MUTATORS and not (
                     a in FIELD_CLASS and len(ap) == 2):
                 add(a, m, n, 'calls .%s() on it' % meth)
+                DEPTH[id(n)] = len(ap) - 1
             if len(ap) == 2 and a in FIELD_CLASS:
                 fc = repo.cls(*FIELD_CLASS[a])
                 if meth in _class_mutators(repo, fc, memo):
@@ -472,6 +625,26 @@ def r1(ctx, res):
             where = '%s.%s' % (cname, a)
             if a in reb:
                 st, fresh = reb[a]
+                need = max([DEPTH.get(id(n_), 1) for _, n_, _ in muts[a]])
+                val = st.value if isinstance(st, ast.Assign) else (
+                    st.args[2] if isinstance(st, ast.Call)
+                    and len(st.args) == 3 else None)
+                have = _fresh_depth(val, _array_elems(repo, ci, a)) \
+                    if val is not None else 99
+                if fresh and have < need:
+                    deep = [(m_, n_, h_) for m_, n_, h_ in muts[a]
+                            if DEPTH.get(id(n_), 1) > have][0]
+                    ctx.violation(
+                        'C06.R1', cl, st,
+                        '%s.clone gives the copy a new %s only %d level(s) '
+                        'deep (%s), but %s modifies an object %d levels down '
+                        'in place (%s): the clones of a template still share '
+                        'that object' % (
+                            cname, a, have, ' '.join(src(st).split())[:70],
+                            deep[0].qual, DEPTH.get(id(deep[1]), 1),
+                            ' '.join(src(deep[1]).split())[:60]),
+                        key='%s | clone shares content of %s' % (ci.full, a))
+                    continue
                 ctx.require(
                     fresh, 'C06.R1', cl, st,
                     '%s.clone binds %s to the original\'s own object (%s), '
